@@ -43,7 +43,7 @@ META = {
                   'build the point object / canonical string of a point this '
                   'module computed.',
     'design_ref': 'DESIGN.md §5 C13',
-    'budget': {'quick': 90, 'thorough': 900},
+    'budget': {'quick': 120, 'thorough': 900},
 }
 RULE = ('case = one generated workflow (6-8 dependent tasks, one or two '
         'trigger expressions each); an explored unit is (expression text, '
@@ -75,7 +75,7 @@ MIN = {
     'input:or-with-atom-text-prefix-of-another': 25,
     'input:or-with-same-output-at-points-n-and-minus-n': 5,
 }
-NCASES = {'quick': 480, 'thorough': 8000}
+NCASES = {'quick': 480, 'thorough': 6000}
 
 
 def ncases(tier):
